@@ -46,18 +46,39 @@ Record ps_ok (p : phrase_sel) : Prop := {
 Definition page_ok (s : shared') (pg : nat) (sel : selector) : Prop :=
   1 <= o_per_page (opts s) -> forall c, candidates dops sops s sel = Ok c -> pg = 0 \/ pg * o_per_page (opts s) < length c.
 
+(* the symbol tables (symbols.dat) are loaded once and never change: ss0 is what the editor was created with;
+   they are well-formed: a category without a table has a name, a table index lies inside the tables *)
+Variable ss0 : symbol_sel.
+Definition ss_good (y : symbol_sel) : Prop :=
+  (forall name, In (name, None) (ss_category y) -> name <> []) /\
+  (forall name idx, In (name, Some idx) (ss_category y) -> idx mod 256 < length (ss_table y)).
+Hypothesis ss0_good : ss_good ss0.
+Hypothesis ss0_fresh : ss_cursor ss0 = None.
+(* a symbol selector in use: the loaded tables, with a cursor inside them *)
+Definition ss_from (y : symbol_sel) : Prop :=
+  ss_category y = ss_category ss0 /\ ss_table y = ss_table ss0 /\ (forall c, ss_cursor y = Some c -> c < length (ss_table ss0)).
+
 (* ... and that composition is the editor's current one: the buffer does not change while a list is open *)
 Definition sel_inv (s : shared') (sel : selector) : Prop :=
-  match sel with SelPhrase p => ps_ok p /\ ps_com p = inner (com s) | _ => True end.
+  match sel with
+  | SelPhrase p => ps_ok p /\ ps_com p = inner (com s)
+  | SelSymbol y => ss_from y
+  | SelSpecial sym => is_char sym = true
+  end.
+(* a list that REPLACES the symbol at the cursor (opened on a symbol) has a symbol at the cursor *)
+Definition act_ok (s : shared') (act : bool) (sel : selector) : Prop :=
+  match sel with SelPhrase _ => True | _ => act = false -> cursor (com s) < ce_len (com s) end.
+Definition pg_ok (s : shared') (pg : nat) (act : bool) (sel : selector) : Prop := page_ok s pg sel /\ act_ok s act sel.
 Definition state_inv (s : shared') (st : estate) : Prop :=
-  match st with Selecting pg _ sel => sel_inv s sel /\ page_ok s pg sel | _ => True end.
+  match st with Selecting pg act sel => sel_inv s sel /\ pg_ok s pg act sel | _ => True end.
 
-Record SInv (s : shared') : Prop := { si_com : wf_ce (com s); si_dict : dict_ok (dict s) }.
+Record SInv (s : shared') : Prop := { si_com : wf_ce (com s); si_dict : dict_ok (dict s); si_sym : sym_sel s = ss0 }.
 Record Inv (e : editor') : Prop := { inv_sh : SInv (sh e); inv_st : state_inv (sh e) (st e) }.
 
 (* what the candidate list and its paging read of the shared state *)
 Definition same_view (a b : shared') : Prop :=
-  dict a = dict b /\ syl a = syl b /\ o_per_page (opts a) = o_per_page (opts b) /\ inner (com a) = inner (com b).
+  dict a = dict b /\ syl a = syl b /\ o_per_page (opts a) = o_per_page (opts b) /\ inner (com a) = inner (com b) /\
+  cursor (com a) = cursor (com b).
 
 Lemma candidates_view a b sel : dict a = dict b -> syl a = syl b -> candidates dops sops a sel = candidates dops sops b sel.
 Proof. intros Hd Hs. destruct sel; unfold candidates; rewrite ?Hd, ?Hs; reflexivity. Qed.
@@ -70,14 +91,20 @@ Qed.
 Lemma sel_inv_view a b sel : inner (com a) = inner (com b) -> sel_inv a sel -> sel_inv b sel.
 Proof. intros Hc. destruct sel; cbn; [|trivial|trivial]. intros (Hok & Hcom). split; [assumption | congruence]. Qed.
 
+Lemma act_ok_view a b act sel : inner (com a) = inner (com b) -> cursor (com a) = cursor (com b) -> act_ok a act sel -> act_ok b act sel.
+Proof. intros Hi Hc. unfold act_ok, ce_len. rewrite Hi, Hc. trivial. Qed.
+
 Lemma state_inv_view a b st : same_view a b -> state_inv a st -> state_inv b st.
 Proof.
-  intros V. destruct st; cbn; trivial. intros (Hs & Hp).
-  split; [eapply sel_inv_view; [apply V | exact Hs] | eapply page_ok_view; eassumption].
+  intros V. destruct st; cbn; trivial. intros (Hs & Hp & Ha).
+  split; [eapply sel_inv_view; [apply V | exact Hs] | split; [eapply page_ok_view; eassumption | eapply act_ok_view; [apply V | apply V | exact Ha]]].
 Qed.
 
 Lemma page_ok_zero s sel : page_ok s 0 sel.
 Proof. intros _ c _. now left. Qed.
+
+Lemma pg_ok_zero_phrase s act p : pg_ok s 0 act (SelPhrase p).
+Proof. split; [apply page_ok_zero | exact Logic.I]. Qed.
 
 Lemma div_ceil_ok a b n : div_ceil a b = Ok n -> 0 < b /\ n = pages_of a b.
 Proof.
@@ -99,14 +126,14 @@ Proof. unfold with_com. intros H. bind_ok H c Hc. inv_ok H. eauto. Qed.
 
 (* ---- helpers preserve SInv ---- *)
 Lemma SInv_set_com s c : SInv s -> wf_ce c -> SInv (set_com s c).
-Proof. intros [Hc Hd] W. constructor; assumption. Qed.
+Proof. intros [Hc Hd Sy] W. constructor; assumption. Qed.
 
 Lemma commit_or_insert_inv s ch s' t : SInv s -> commit_or_insert s ch = Ok (s', t) -> SInv s'.
 Proof.
   intros I H. unfold commit_or_insert in H. destruct (ce_is_empty (com s)).
   - inv_ok H. destruct I; constructor; assumption.
   - bind_ok H s1 H1. inv_ok H. apply with_com_ok in H1 as (c & Hc & ->).
-    apply SInv_set_com; [assumption|]. destruct I as [W _]. now destruct (ce_insert_spec _ _ _ W Hc).
+    apply SInv_set_com; [assumption|]. destruct I as [W _ _]. now destruct (ce_insert_spec _ _ _ W Hc).
 Qed.
 
 Lemma insert_chars_wf l : forall c c', wf_ce c -> insert_chars c l = Ok c' -> wf_ce c'.
@@ -124,7 +151,7 @@ Lemma learn_phrase_inv s k t s' b : SInv s -> learn_phrase dops s k t = Ok (s', 
   notice s' = notice s /\ last s' = last s /\ lifetime s' = lifetime s /\ engine s' = engine s /\
   abbr s' = abbr s /\ sym_sel s' = sym_sel s.
 Proof.
-  intros [W Hd] H. unfold learn_phrase in H.
+  intros [W Hd Sy] H. unfold learn_phrase in H.
   destruct (negb (Nat.eqb (length k) (length t))) eqn:El.
   - inv_ok H. frame.
   - apply negb_false_iff, Nat.eqb_eq in El.
@@ -133,7 +160,7 @@ Proof.
       assert (Hd' : dict_ok d').
       { change d' with (fst (d', ok)). rewrite <- Ea. apply ok_add; [assumption | lia]. }
       inv_ok H. cbn. split; [|repeat split; reflexivity]. constructor; cbn; assumption.
-    + bind_ok H uf Hu. inv_ok H. cbn. split; [|repeat split; reflexivity]. constructor; cbn; [assumption|].
+    + bind_ok H uf Hu. inv_ok H. cbn. split; [|repeat split; reflexivity]. constructor; cbn; [assumption| |assumption].
       apply ok_update; [assumption | lia |].
       intros ->. rewrite (ok_lookup _ _ Hd) in Elk. discriminate.
 Qed.
@@ -184,7 +211,7 @@ Proof.
     - unfold auto_learn in H1. destruct (auto_learn_go_inv _ _ _ _ _ _ I H1) as (I1 & E1 & E2 & E3 & _). auto. }
   destruct K as (I1 & Ec & Eo & Es). cbn.
   split; [|split; [reflexivity | split; [reflexivity | split; [reflexivity | split; [reflexivity | split; assumption]]]]].
-  destruct I1 as [W1 D1]. constructor; cbn; [apply ce_clear_all_wf | assumption].
+  destruct I1 as [W1 D1 Sy1]. constructor; cbn; [apply ce_clear_all_wf | assumption | assumption].
 Qed.
 
 Lemma try_auto_commit_inv s s' : SInv s -> try_auto_commit conv s = Ok s' -> SInv s'.
@@ -192,7 +219,7 @@ Proof.
   intros I H. unfold try_auto_commit in H.
   destruct (Nat.leb (ce_len (com s)) (o_threshold (opts s))); [now inv_ok H|].
   bind_ok H r Hr. destruct r as [buf remove]. bind_ok H c Hc. inv_ok H.
-  destruct I as [W Dk]. constructor; cbn; [|assumption].
+  destruct I as [W Dk Sy]. constructor; cbn; [|assumption|assumption].
   now destruct (ce_remove_front_spec _ _ _ W Hc).
 Qed.
 
@@ -209,7 +236,7 @@ Proof. intros H. unfold slice. rewrite firstn_length, skipn_length. lia. Qed.
 Lemma learn_in_range_inv s a b s' ok : SInv s -> learn_in_range dops conv s a b = Ok (s', ok) ->
   SInv s' /\ com s' = com s /\ opts s' = opts s /\ syl s' = syl s /\ nth s' = nth s.
 Proof.
-  intros [W Dk] H. unfold learn_in_range in H.
+  intros [W Dk Sy] H. unfold learn_in_range in H.
   destruct (Nat.ltb (ce_len (com s)) b) eqn:Eb; [inv_ok H; cbn; frame|]. apply Nat.ltb_ge in Eb.
   destruct (Nat.ltb b a) eqn:Eab; [discriminate|]. apply Nat.ltb_ge in Eab.
   destruct (existsb is_char _) eqn:Ech; [inv_ok H; cbn; frame|].
@@ -476,14 +503,14 @@ Lemma new_phrase_selecting_inv s s' st' : SInv s ->
   new_phrase_selecting dops s = Ok (s', st') ->
   SInv s' /\ state_inv s' st'.
 Proof.
-  intros [W Dk] (code & Hsym) H. unfold new_phrase_selecting in H. bind_ok H p Hp. inv_ok H. split.
-  - constructor; cbn; [|assumption]. apply ce_clamp_cursor_wf, ce_push_cursor_wf, W.
+  intros [W Dk Sy] (code & Hsym) H. unfold new_phrase_selecting in H. bind_ok H p Hp. inv_ok H. split.
+  - constructor; cbn; [|assumption|assumption]. apply ce_clamp_cursor_wf, ce_push_cursor_wf, W.
   - destruct (symbol_for_select_at_clamped_cursor _ _ Hsym) as (Hlt & Hat).
     assert (Hin : inner (ce_clamp_cursor (ce_push_cursor (com s))) = inner (com s)).
     { unfold ce_clamp_cursor, ce_push_cursor. cbn [cursor inner cursor_stack ce_len]. destruct (Nat.eqb _ _); reflexivity. }
     unfold ps_new in Hp. rewrite Hin in Hp.
     apply ps_init_inv in Hp; [|exact Dk | exact Hlt | exists code; exact Hat].
-    destruct Hp as (Hok & Hc). cbn [state_inv sel_inv]. split; [|apply page_ok_zero].
+    destruct Hp as (Hok & Hc). cbn [state_inv sel_inv]. split; [|apply pg_ok_zero_phrase].
     split; [exact Hok|]. rewrite Hc. cbn [ps_com com set_com]. now rewrite Hin.
 Qed.
 
@@ -492,29 +519,47 @@ Lemma new_phrase_selecting_simple_inv s s' st' : SInv s ->
   new_phrase_selecting_simple s = Ok (s', st') ->
   SInv s' /\ state_inv s' st'.
 Proof.
-  intros [W Dk] Hsym H. unfold new_phrase_selecting_simple in H. bind_ok H p Hp. inv_ok H. split.
-  - constructor; cbn; [|assumption]. apply ce_push_cursor_wf, W.
+  intros [W Dk Sy] Hsym H. unfold new_phrase_selecting_simple in H. bind_ok H p Hp. inv_ok H. split.
+  - constructor; cbn; [|assumption|assumption]. apply ce_push_cursor_wf, W.
   - apply ps_init_single_word_inv in Hp.
-    + destruct Hp as (Hok & Hc). cbn [state_inv sel_inv]. split; [|apply page_ok_zero].
+    + destruct Hp as (Hok & Hc). cbn [state_inv sel_inv]. split; [|apply pg_ok_zero_phrase].
       split; [exact Hok|]. rewrite Hc. reflexivity.
     + cbn [ps_new ps_com ce_push_cursor cursor inner]. destruct W as [_ Wc]. unfold ce_len in Wc.
       rewrite Nat.min_l by exact Wc. exact Hsym.
 Qed.
 
-Lemma new_special_selecting_inv s sym s' st' : SInv s -> new_special_selecting s sym = Ok (s', st') ->
+Lemma ss0_from : ss_from ss0.
+Proof. split; [reflexivity | split; [reflexivity | intros c Hc; rewrite ss0_fresh in Hc; discriminate]]. Qed.
+
+Lemma new_special_selecting_inv s sym s' st' : SInv s ->
+  ce_symbol_for_select (com s) = Some sym -> is_syllable sym = false ->
+  new_special_selecting s sym = Ok (s', st') ->
   SInv s' /\ state_inv s' st'.
 Proof.
-  intros [W Dk] H. unfold new_special_selecting in H. bind_ok H m Hm.
+  intros [W Dk Sy] Hsym Hch H. unfold new_special_selecting in H. bind_ok H m Hm.
   assert (K : wf_ce (ce_clamp_cursor (ce_push_cursor (com s)))) by (apply ce_clamp_cursor_wf, ce_push_cursor_wf, W).
-  destruct m; inv_ok H; (split; [constructor; cbn; assumption | cbn [state_inv sel_inv]; split; [exact I | apply page_ok_zero]]).
+  destruct (symbol_for_select_at_clamped_cursor _ _ Hsym) as (Hlt & _).
+  assert (Hlen : cursor (ce_clamp_cursor (ce_push_cursor (com s))) < ce_len (ce_clamp_cursor (ce_push_cursor (com s)))).
+  { unfold ce_len. replace (inner (ce_clamp_cursor (ce_push_cursor (com s)))) with (inner (com s)); [exact Hlt|].
+    unfold ce_clamp_cursor, ce_push_cursor. cbn [cursor inner cursor_stack ce_len]. destruct (Nat.eqb _ _); reflexivity. }
+  destruct m; inv_ok H; (split; [constructor; cbn; assumption|]); cbn [state_inv sel_inv].
+  - split; [rewrite Sy; apply ss0_from | split; [apply page_ok_zero | intros _; exact Hlen]].
+  - split; [unfold is_char; now rewrite Hch | split; [apply page_ok_zero | intros _; exact Hlen]].
 Qed.
 
 Definition trans_inv (s : shared') (t : transition) : Prop := match t with ToState st => state_inv s st | Spin _ => True end.
 
-(* goals that are True up to unfolding, or the first page of a symbol list *)
+(* goals that are True up to unfolding, or the first page of the symbol-table list (Insert action) *)
 Ltac triv_t :=
   cbn [trans_inv state_inv sel_inv new_symbol_selecting];
-  first [exact Logic.I | split; [exact Logic.I | apply page_ok_zero]].
+  first [exact Logic.I
+        | match goal with
+          | I : SInv _ |- _ =>
+            let Sy := fresh "Sy" in
+            destruct I as [_ _ Sy];
+            cbn [sym_sel set_com set_syl set_dict set_opts set_last set_nth set_commit set_notice set_lifetime set_engine] in *;
+            split; [rewrite ?Sy; apply ss0_from | split; [apply page_ok_zero | intros Hf; discriminate Hf]]
+          end].
 
 Lemma start_selecting_common_inv s f s' t : SInv s ->
   (forall s0, SInv s0 -> SInv (fst (f s0)) /\ trans_inv (fst (f s0)) (snd (f s0))) ->
@@ -534,7 +579,7 @@ Ltac sinv :=
   | I : SInv _ |- SInv _ =>
     solve [
       let W := fresh "W" in let Dk := fresh "Dk" in
-      destruct I as [W Dk]; constructor;
+      destruct I as [W Dk Sy]; constructor;
       unfold switch_language, switch_form, cancel_selecting;
       cbn [com dict set_com set_syl set_dict set_opts set_last set_nth set_commit set_notice set_lifetime set_engine];
       auto using ce_left_wf, ce_right_wf, ce_to_end_wf, ce_to_begin_wf, ce_clear_keep_stack_wf, ce_clear_all_wf, ce_pop_cursor_wf,
@@ -560,7 +605,7 @@ Proof.
     bind_ok H0 x Hx. inv_ok H0. triv_t. }
   assert (INS : forall s0 x s1, SInv s0 -> with_com s0 (ce_insert (com s0) x) = Ok s1 -> SInv s1).
   { intros s0 x s1 I0 H0. eapply with_com_inv; [exact I0| |exact H0].
-    intros c Hc. destruct I0 as [W0 _]. now destruct (ce_insert_spec _ _ _ W0 Hc). }
+    intros c Hc. destruct I0 as [W0 _ _]. now destruct (ce_insert_spec _ _ _ W0 Hc). }
   destruct (negb (o_english (opts s))).
   - destruct (N.eqb (kcode ev) kc_Grave && mods_none ev); [inv_ok H; split; [assumption | triv_t]|].
     destruct (N.eqb (kcode ev) kc_Space).
@@ -569,7 +614,7 @@ Proof.
     destruct (o_easy_symbol (opts s)).
     { destruct (assoc (kunicode ev) (abbr s)).
       - bind_ok H c Hc. inv_ok H. split; [|triv_t].
-        apply SInv_set_com; [assumption|]. destruct I as [W _]. eapply insert_chars_wf; eassumption.
+        apply SInv_set_com; [assumption|]. destruct I as [W _ _]. eapply insert_chars_wf; eassumption.
       - destruct (special_symbol_input (kunicode ev)).
         + bind_ok H s1 H1. inv_ok H. split; [eapply INS; eassumption | triv_t].
         + destruct (mods_none ev).
@@ -602,7 +647,7 @@ Proof.
   assert (WC : forall (f : comp_editor -> outcome comp_editor) s1,
              (forall c c', wf_ce c -> f c = Ok c' -> wf_ce c') ->
              with_com s (f (com s)) = Ok s1 -> SInv s1).
-  { intros f s1 Hf H0. eapply with_com_inv; [exact I| |exact H0]. intros c Hc. destruct I as [W _]. eapply Hf; eassumption. }
+  { intros f s1 Hf H0. eapply with_com_inv; [exact I| |exact H0]. intros c Hc. destruct I as [W _ _]. eapply Hf; eassumption. }
   assert (LR : forall a b r, learn_in_range dops conv s a b = Ok r -> SInv (fst r)).
   { intros a b [s1 ok] Hr. cbn. now destruct (learn_in_range_inv _ _ _ _ _ I Hr). }
   split_if H.
@@ -659,7 +704,7 @@ Proof.
   assert (I1 : SInv (set_syl s sy)) by sinv.
   assert (INS : forall s0 x s1, SInv s0 -> with_com s0 (ce_insert (com s0) x) = Ok s1 -> SInv s1).
   { intros s0 x s1 I0 H0. eapply with_com_inv; [exact I0| |exact H0].
-    intros c Hc. destruct I0 as [W0 _]. now destruct (ce_insert_spec _ _ _ W0 Hc). }
+    intros c Hc. destruct I0 as [W0 _ _]. now destruct (ce_insert_spec _ _ _ W0 Hc). }
   destruct kb; try done_spin H.
   - (* Commit *)
     split_if H; [|done_spin H].
@@ -669,7 +714,7 @@ Proof.
       eapply new_phrase_selecting_simple_inv; [| |exact Hr]; [sinv|].
       (* the syllable just inserted sits right before the cursor *)
       cbn [com set_syl]. apply with_com_ok in H2 as (c2 & Hc2 & ->). cbn [com set_com].
-      destruct I1 as [W1 _]. destruct (ce_insert_spec _ _ _ W1 Hc2) as (_ & Hsy & Hcur & _).
+      destruct I1 as [W1 _ _]. destruct (ce_insert_spec _ _ _ W1 Hc2) as (_ & Hsy & Hcur & _).
       intros _. rewrite Hcur. replace (S (cursor (com (set_syl s sy))) - 1) with (cursor (com (set_syl s sy))) by lia.
       eexists. unfold syl_at. rewrite Hsy. apply nth_error_insert_at_eq. destruct W1 as [_ Wc]. exact Wc.
     + done_spin H.
@@ -688,61 +733,76 @@ Qed.
 (* what a step inside the Selecting state guarantees: the shared state stays well-formed, a new
    state is a good one, and when the editor stays in the list the (possibly new) selector and
    page are good for the new shared state *)
-Definition stay_inv (s' : shared') (t : transition) (pg' : nat) (sel' : selector) : Prop :=
-  match t with Spin _ => sel_inv s' sel' /\ page_ok s' pg' sel' | ToState _ => True end.
+Definition stay_inv (s' : shared') (t : transition) (pg' : nat) (act : bool) (sel' : selector) : Prop :=
+  match t with Spin _ => sel_inv s' sel' /\ pg_ok s' pg' act sel' | ToState _ => True end.
 
-Lemma selecting_select_offset_inv s pg act sel n s' t pg' sel' : SInv s -> sel_inv s sel -> page_ok s pg sel ->
-  selecting_select_offset dops sops s pg act sel n = Ok (s', t, pg', sel') ->
-  SInv s' /\ trans_inv s' t /\ stay_inv s' t pg' sel'.
+Lemma ss_select_from y n y' r : ss_from y -> ss_select y n = Ok (y', r) -> ss_from y'.
 Proof.
-  intros I Hsel Hpg H. unfold selecting_select_offset in H. destruct sel as [p|y|sym0].
-  - bind_ok H cands Hc. destruct (nth_error cands _) as [text|].
-    + bind_ok H c1 H1. inv_ok H. split; [|split; exact Logic.I].
-      destruct I as [W Dk]. destruct Hsel as ([Hlt Hle _] & Hcom).
-      destruct (ce_select_spec _ (mkIv (ps_begin p) (ps_end p) true text) _ W Hlt H1) as (W1 & _).
-      constructor; cbn; [|assumption].
-      destruct (o_auto_shift (opts s)); [apply ce_right_wf|]; apply ce_pop_cursor_wf; assumption.
-    + inv_ok H. split; [assumption | split; [exact Logic.I | split; assumption]].
-  - destruct (Nat.leb _ _); [inv_ok H; split; [assumption | split; [exact Logic.I | split; assumption]]|].
-    bind_ok H r Hr. destruct r as [y' res]. destruct res as [sym|].
-    + bind_ok H c1 H1. inv_ok H. split; [|split; exact Logic.I].
-      destruct I as [W Dk]. constructor; cbn; [|assumption].
-      apply ce_pop_cursor_wf. eapply ce_insert_or_replace_wf; eassumption.
-    + inv_ok H. split; [assumption | split; [exact Logic.I | split; [exact Logic.I | apply page_ok_zero]]].
-  - bind_ok H m Hm. destruct (Nat.leb _ _); [inv_ok H; split; [assumption | split; [exact Logic.I | split; assumption]]|].
-    bind_ok H res Hr. destruct res as [sym|].
-    + bind_ok H c1 H1. inv_ok H. split; [|split; exact Logic.I].
-      destruct I as [W Dk]. constructor; cbn; [|assumption].
-      apply ce_pop_cursor_wf. eapply ce_insert_or_replace_wf; eassumption.
-    + inv_ok H. split; [assumption | split; [exact Logic.I | split; [exact Logic.I | apply page_ok_zero]]].
+  intros (Hc & Ht & Hcur) H. unfold ss_select in H. destruct (ss_cursor y) as [c|] eqn:Ec.
+  - destruct (Nat.leb _ c); [discriminate|]. inv_ok H. repeat split; try assumption; try (intros c0 H0; discriminate).
+  - destruct (nth_error (ss_category y) n) as [[name [idx|]]|] eqn:En.
+    + inv_ok H. repeat split; try assumption. cbn [ss_cursor]. intros c0 H0. inv_ok H0.
+      destruct ss0_good as (_ & G2). rewrite <- Ht. rewrite Hc in En. apply nth_error_In in En.
+      specialize (G2 _ _ En). now rewrite Ht.
+    + destruct name; [discriminate|]. inv_ok H. repeat split; try assumption; try (intros c0 H0; discriminate).
+    + inv_ok H. repeat split; try assumption. intros c0 H0. rewrite Ec in H0. discriminate.
 Qed.
 
-Lemma selecting_select_inv s pg act sel n s' t pg' sel' : SInv s -> sel_inv s sel -> page_ok s pg sel ->
+Lemma selecting_select_offset_inv s pg act sel n s' t pg' sel' : SInv s -> sel_inv s sel -> pg_ok s pg act sel ->
+  selecting_select_offset dops sops s pg act sel n = Ok (s', t, pg', sel') ->
+  SInv s' /\ trans_inv s' t /\ stay_inv s' t pg' act sel'.
+Proof.
+  intros I Hsel (Hpg & Hact) H. unfold selecting_select_offset in H. destruct sel as [p|y|sym0].
+  - bind_ok H cands Hc. destruct (nth_error cands _) as [text|].
+    + bind_ok H c1 H1. inv_ok H. split; [|split; exact Logic.I].
+      destruct I as [W Dk Sy]. destruct Hsel as ([Hlt Hle _] & Hcom).
+      destruct (ce_select_spec _ (mkIv (ps_begin p) (ps_end p) true text) _ W Hlt H1) as (W1 & _).
+      constructor; cbn; [|assumption|assumption].
+      destruct (o_auto_shift (opts s)); [apply ce_right_wf|]; apply ce_pop_cursor_wf; assumption.
+    + inv_ok H. split; [assumption | split; [exact Logic.I | split; [assumption | split; assumption]]].
+  - destruct (Nat.leb _ _); [inv_ok H; split; [assumption | split; [exact Logic.I | split; [assumption | split; assumption]]]|].
+    bind_ok H r Hr. destruct r as [y' res]. pose proof (ss_select_from _ _ _ _ Hsel Hr) as Hy'. destruct res as [sym|].
+    + bind_ok H c1 H1. inv_ok H. split; [|split; exact Logic.I].
+      destruct I as [W Dk Sy]. constructor; cbn; [|assumption|assumption].
+      apply ce_pop_cursor_wf. eapply ce_insert_or_replace_wf; eassumption.
+    + inv_ok H. split; [assumption | split; [exact Logic.I | split; [exact Hy' | split; [apply page_ok_zero | exact Hact]]]].
+  - bind_ok H m Hm. destruct (Nat.leb _ _); [inv_ok H; split; [assumption | split; [exact Logic.I | split; [assumption | split; assumption]]]|].
+    bind_ok H res Hr. destruct res as [sym|].
+    + bind_ok H c1 H1. inv_ok H. split; [|split; exact Logic.I].
+      destruct I as [W Dk Sy]. constructor; cbn; [|assumption|assumption].
+      apply ce_pop_cursor_wf. eapply ce_insert_or_replace_wf; eassumption.
+    + inv_ok H. split; [assumption | split; [exact Logic.I | split; [exact Hsel | split; [apply page_ok_zero | exact Hact]]]].
+Qed.
+
+Lemma selecting_select_inv s pg act sel n s' t pg' sel' : SInv s -> sel_inv s sel -> pg_ok s pg act sel ->
   selecting_select dops sops s pg act sel n = Ok (s', t, pg', sel') ->
-  SInv s' /\ trans_inv s' t /\ stay_inv s' t pg' sel'.
+  SInv s' /\ trans_inv s' t /\ stay_inv s' t pg' act sel'.
 Proof. unfold selecting_select. apply selecting_select_offset_inv. Qed.
 
-Lemma reselect_at_cursor_inv s sel : SInv s -> reselect_at_cursor dops s = Ok sel -> sel_inv s sel.
+(* the selector J / K open at the (moved) cursor: a phrase list or a special-symbol list on the symbol there *)
+Lemma reselect_at_cursor_inv s sel act : SInv s -> reselect_at_cursor dops s = Ok sel -> sel_inv s sel /\ act_ok s act sel.
 Proof.
-  intros [W Dk] H. unfold reselect_at_cursor in H. destruct (ce_symbol (com s)) as [sym|] eqn:Esym; [|discriminate].
+  intros [W Dk Sy] H. unfold reselect_at_cursor in H. destruct (ce_symbol (com s)) as [sym|] eqn:Esym; [|discriminate].
+  assert (Hcur : cursor (com s) < ce_len (com s)).
+  { unfold ce_symbol, comp_symbol in Esym. apply nth_error_Some. unfold ce_len, clen. congruence. }
   destruct (is_syllable sym) eqn:Eis.
   - bind_ok H p Hp. inv_ok H. cbn.
     unfold ce_symbol, comp_symbol in Esym. destruct sym as [code|ch]; [|discriminate].
-    apply ps_init_inv in Hp; [|exact Dk | apply nth_error_Some; unfold clen, ps_new, ps_com; congruence | exists code; exact Esym].
-    destruct Hp as (Hok & Hc). split; [exact Hok | now rewrite Hc].
-  - inv_ok H. exact Logic.I.
+    apply ps_init_inv in Hp; [|exact Dk | exact Hcur | exists code; exact Esym].
+    destruct Hp as (Hok & Hc). split; [split; [exact Hok | now rewrite Hc] | exact Logic.I].
+  - inv_ok H. cbn. split; [unfold is_char; now rewrite Eis | intros _; exact Hcur].
 Qed.
 
 (* stay in the list with the same shared state, selector and (given) page *)
-Ltac fin_stay := split; [first [assumption | sinv] | split; [exact Logic.I | split; first [assumption | apply page_ok_zero]]].
+Ltac fin_stay := split; [first [assumption | sinv] | split; [exact Logic.I | split; [assumption | split; first [assumption | apply page_ok_zero]]]].
 (* leave the list *)
 Ltac fin_leave := split; [first [assumption | sinv] | split; exact Logic.I].
 
-Lemma selecting_next_inv s ev pg act sel s' t pg' sel' : SInv s -> sel_inv s sel -> page_ok s pg sel ->
+Lemma selecting_next_inv s ev pg act sel s' t pg' sel' : SInv s -> sel_inv s sel -> pg_ok s pg act sel ->
   selecting_next dops sops s ev pg act sel = Ok (s', t, pg', sel') ->
-  SInv s' /\ trans_inv s' t /\ stay_inv s' t pg' sel'.
+  SInv s' /\ trans_inv s' t /\ stay_inv s' t pg' act sel'.
 Proof.
-  intros I Hsel Hpg H. unfold selecting_next in H. cbv zeta in H.
+  intros I Hsel Hpgok H. pose proof Hpgok as (Hpg & Hact). unfold selecting_next in H. cbv zeta in H.
   assert (CS : SInv (cancel_selecting s)) by (unfold cancel_selecting; sinv).
   assert (CSL : SInv (cancel_selecting (switch_language s))) by (unfold cancel_selecting, switch_language; sinv).
   split_if H; [inv_ok H; fin_stay|].
@@ -752,36 +812,38 @@ Proof.
   split_if H.
   { bind_ok H tp Htp. split_if H.
     { inv_ok H. match goal with E : Nat.ltb (S _) _ = true |- _ => apply Nat.ltb_lt in E end. split; [assumption | split; [exact Logic.I | split; [assumption|]]].
-      eapply total_page_lt; eassumption. }
+      split; [eapply total_page_lt; eassumption | exact Hact]. }
     destruct sel as [p|y|sym0].
     - bind_ok H p' Hp'. inv_ok H. split; [assumption | split; [exact Logic.I|]].
-      destruct I as [W Dk]. unfold ps_next in Hp'. destruct Hsel as (Hpok & Hcom).
+      destruct I as [W Dk Sy]. unfold ps_next in Hp'. destruct Hsel as (Hpok & Hcom).
       destruct (ps_cycle_inv _ _ (ps_begin p, ps_end p) p p' Dk Hpok Hp') as (Hok & Hc).
-      split; [|apply page_ok_zero]. split; [exact Hok | congruence].
+      split; [|apply pg_ok_zero_phrase]. split; [exact Hok | congruence].
     - inv_ok H. fin_stay.
     - inv_ok H. fin_stay. }
   split_if H.
   { split_if H; [inv_ok H; fin_stay|].
     bind_ok H sel1 Hs1. inv_ok H.
     assert (I1 : SInv (set_com s (ce_move_cursor (com s) (sel_begin s sel - 1)))) by sinv.
-    split; [exact I1 | split; [exact Logic.I | split; [eapply reselect_at_cursor_inv; eassumption | apply page_ok_zero]]]. }
+    destruct (reselect_at_cursor_inv _ _ act I1 Hs1) as (R1 & R2).
+    split; [exact I1 | split; [exact Logic.I | split; [exact R1 | split; [apply page_ok_zero | exact R2]]]]. }
   split_if H.
   { split_if H; [inv_ok H; fin_stay|].
     bind_ok H sel1 Hs1. inv_ok H.
     assert (I1 : SInv (set_com s (ce_clamp_cursor (ce_move_cursor (com s) (sel_begin s sel + 1))))) by sinv.
-    split; [exact I1 | split; [exact Logic.I | split; [eapply reselect_at_cursor_inv; eassumption | apply page_ok_zero]]]. }
+    destruct (reselect_at_cursor_inv _ _ act I1 Hs1) as (R1 & R2).
+    split; [exact I1 | split; [exact Logic.I | split; [exact R1 | split; [apply page_ok_zero | exact R2]]]]. }
   split_if H.
   { split_if H.
-    - inv_ok H. split; [assumption | split; [exact Logic.I | split; [assumption | now apply page_ok_pred]]].
-    - bind_ok H tp Htp. inv_ok H. split; [assumption | split; [exact Logic.I | split; [assumption | eapply total_page_last; eassumption]]]. }
+    - inv_ok H. split; [assumption | split; [exact Logic.I | split; [assumption | split; [now apply page_ok_pred | exact Hact]]]].
+    - bind_ok H tp Htp. inv_ok H. split; [assumption | split; [exact Logic.I | split; [assumption | split; [eapply total_page_last; eassumption | exact Hact]]]]. }
   split_if H.
   { bind_ok H tp Htp. split_if H; inv_ok H.
-    - match goal with E : Nat.ltb (S _) _ = true |- _ => apply Nat.ltb_lt in E end. split; [assumption | split; [exact Logic.I | split; [assumption | eapply total_page_lt; eassumption]]].
+    - match goal with E : Nat.ltb (S _) _ = true |- _ => apply Nat.ltb_lt in E end. split; [assumption | split; [exact Logic.I | split; [assumption | split; [eapply total_page_lt; eassumption | exact Hact]]]].
     - fin_stay. }
-  split_if H; [eapply selecting_select_inv; [exact I | exact Hsel | exact Hpg | exact H]|].
+  split_if H; [eapply selecting_select_inv; [exact I | exact Hsel | exact Hpgok | exact H]|].
   split_if H.
   { inv_ok H. split; [|split; exact Logic.I].
-    destruct CS as [W Dk]. constructor; cbn; [apply ce_pop_cursor_wf; exact W | exact Dk]. }
+    destruct CS as [W Dk Sy]. constructor; cbn; [apply ce_pop_cursor_wf; exact W | exact Dk | exact Sy]. }
   split_if H; inv_ok H; fin_stay.
 Qed.
 
@@ -861,21 +923,9 @@ Proof.
   { eapply apply_transition_inv; [exact I2 | | exact T2 | exact Ea]. destruct t; [exact Logic.I | exact S2]. }
   destruct K3 as (I3 & S3).
   bind_ok H s4 H4. inv_ok H.
-  destruct (behavior_eqb (last s3) BAbsorb) eqn:Eb.
-  - constructor; cbn [sh st]; [eapply try_auto_commit_inv; eassumption|].
-    (* a choice that was absorbed either left the list (Entering) or stayed with the shared state unchanged *)
-    unfold apply_transition in Ea. destruct t as [ns|bb]; inv_ok Ea.
-    + clear S3. unfold selecting_select_offset in Hr. destruct sel as [p|y|sym0].
-      * bind_ok Hr cands Hc. destruct (nth_error cands n); [bind_ok Hr c1 H1|]; inv_ok Hr. exact Logic.I.
-      * destruct (Nat.leb _ _); [inv_ok Hr|]. bind_ok Hr r Hr1. destruct r as [y' [sym|]]; [bind_ok Hr c1 H1|]; inv_ok Hr. exact Logic.I.
-      * bind_ok Hr m Hm. destruct (Nat.leb _ _); [inv_ok Hr|]. bind_ok Hr r Hr1. destruct r as [sym|]; [bind_ok Hr c1 H1|]; inv_ok Hr. exact Logic.I.
-    + (* Spin: the buffer was not changed, so the automatic commit sees the state the list was opened on *)
-      unfold selecting_select_offset in Hr. destruct sel as [p|y|sym0].
-      * bind_ok Hr cands Hc. destruct (nth_error cands n); [bind_ok Hr c1 H1|]; inv_ok Hr. discriminate.
-      * destruct (Nat.leb _ _); [inv_ok Hr; discriminate|]. bind_ok Hr r Hr1. destruct r as [y' [sym|]]; [bind_ok Hr c1 H1|]; inv_ok Hr.
-        cbn [state_inv sel_inv]. split; [exact Logic.I | apply page_ok_zero].
-      * bind_ok Hr m Hm. destruct (Nat.leb _ _); [inv_ok Hr; discriminate|]. bind_ok Hr r Hr1. destruct r as [sym|]; [bind_ok Hr c1 H1|]; inv_ok Hr.
-        cbn [state_inv sel_inv]. split; [exact Logic.I | apply page_ok_zero].
+  destruct (is_entering st3 && behavior_eqb (last s3) BAbsorb) eqn:Eb.
+  - apply andb_true_iff in Eb as (Eb & _). constructor; cbn [sh st]; [eapply try_auto_commit_inv; eassumption|].
+    destruct st3; try discriminate. exact Logic.I.
   - inv_ok H4. constructor; cbn [sh st]; assumption.
 Qed.
 
@@ -913,23 +963,24 @@ Qed.
 
 Theorem ed_clear_inv e : Inv e -> Inv (ed_clear sops e).
 Proof.
-  intros [[W Dk] Ist]. constructor; cbn [sh st ed_clear]; [|exact Logic.I].
-  constructor; cbn; [apply ce_clear_all_wf | assumption].
+  intros [[W Dk Sy] Ist]. constructor; cbn [sh st ed_clear]; [|exact Logic.I].
+  constructor; cbn; [apply ce_clear_all_wf | assumption | assumption].
 Qed.
 
 (* set_editor_options / learn / unlearn leave the buffer alone; the page is then brought back
    into range (clamp_page), which re-establishes the page part of the invariant *)
 Lemma clamp_page_inv e e' : SInv (sh e) ->
-  (forall pg act sel, st e = Selecting pg act sel -> sel_inv (sh e) sel) ->
-  (o_per_page (opts (sh e)) = 0 -> state_inv (sh e) (st e)) ->
+  (forall pg act sel, st e = Selecting pg act sel -> sel_inv (sh e) sel /\ act_ok (sh e) act sel) ->
   clamp_page dops sops e = Ok e' -> Inv e'.
 Proof.
-  intros Ish Hsel Hzero H. unfold clamp_page in H.
+  intros Ish Hsel H. unfold clamp_page in H.
   destruct (st e) as [| |pg act sel|mv] eqn:Est; try (inv_ok H; constructor; [assumption | rewrite Est; exact Logic.I]).
+  destruct (Hsel _ _ _ eq_refl) as (Hs & Ha).
   destruct (Nat.eqb (o_per_page (opts (sh e))) 0) eqn:Ez.
-  - apply Nat.eqb_eq in Ez. injection H as <-. constructor; [assumption | rewrite Est; now apply Hzero].
+  - apply Nat.eqb_eq in Ez. injection H as <-. constructor; [assumption | rewrite Est].
+    split; [exact Hs | split; [intros Hp; lia | exact Ha]].
   - bind_ok H tp Htp. inv_ok H. constructor; cbn [sh st]; [assumption|]. cbn [state_inv].
-    split; [eapply Hsel; reflexivity|].
+    split; [exact Hs | split; [|exact Ha]].
     intros Hp c Hc. pose proof (total_page_last _ _ _ Htp Hp c Hc) as [Hz|Hlt].
     + left. lia.
     + destruct (Nat.min_spec pg (tp - 1)) as [(Hmin & ->)|(_ & ->)]; [|now right].
@@ -941,13 +992,9 @@ Proof. intros Ish. unfold ed_set_options. cbn [sh]. destruct (negb _); sinv. Qed
 
 Theorem ed_set_options_c_inv e o e' : Inv e -> ed_set_options_c dops sops e o = Ok e' -> Inv e'.
 Proof.
-  intros [Ish Ist] H. unfold ed_set_options_c in H. eapply clamp_page_inv; [apply ed_set_options_sinv, Ish | | | exact H].
-  - intros pg act sel Hst. unfold ed_set_options in *. cbn [sh st] in *. rewrite Hst in Ist. destruct Ist as (Hs & _).
-    eapply sel_inv_view; [|exact Hs]. destruct (negb _); reflexivity.
-  - intros Hz. unfold ed_set_options in *. cbn [sh st] in *.
-    destruct (st e) as [| |pg act sel|mv]; try exact Logic.I. destruct Ist as (Hs & _). split.
-    + eapply sel_inv_view; [|exact Hs]. destruct (negb _); reflexivity.
-    + intros Hp. exfalso. destruct (negb _); cbn [opts set_opts set_syl] in Hp, Hz; lia.
+  intros [Ish Ist] H. unfold ed_set_options_c in H. eapply clamp_page_inv; [apply ed_set_options_sinv, Ish | | exact H].
+  intros pg act sel Hst. unfold ed_set_options in *. cbn [sh st] in *. rewrite Hst in Ist. destruct Ist as (Hs & _ & Ha).
+  split; [eapply sel_inv_view; [|exact Hs] | eapply act_ok_view; [| |exact Ha]]; destruct (negb _); reflexivity.
 Qed.
 
 Theorem ed_learn_inv_s e k t e' b : SInv (sh e) -> ed_learn dops e k t = Ok (e', b) ->
@@ -961,21 +1008,16 @@ Theorem ed_learn_c_inv e k t e' b : Inv e -> ed_learn_c dops sops e k t = Ok (e'
 Proof.
   intros [Ish Ist] H. unfold ed_learn_c in H. bind_ok H r Hr. bind_ok H e1 He1. inv_ok H. destruct r as [e0 b0].
   destruct (ed_learn_inv_s _ _ _ _ _ Ish Hr) as (I0 & Ec & Eo & Es). cbn [fst] in He1.
-  eapply clamp_page_inv; [exact I0 | | | exact He1].
-  - intros pg act sel Hst. rewrite Es in Hst. rewrite Hst in Ist. destruct Ist as (Hs & _).
-    eapply sel_inv_view; [|exact Hs]. now rewrite Ec.
-  - intros Hz. rewrite Es. destruct (st e) as [| |pg act sel|mv]; try exact Logic.I. destruct Ist as (Hs & _). split.
-    + eapply sel_inv_view; [|exact Hs]. now rewrite Ec.
-    + intros Hp. lia.
+  eapply clamp_page_inv; [exact I0 | | exact He1].
+  intros pg act sel Hst. rewrite Es in Hst. rewrite Hst in Ist. destruct Ist as (Hs & _ & Ha).
+  split; [eapply sel_inv_view; [|exact Hs] | eapply act_ok_view; [| |exact Ha]]; now rewrite Ec.
 Qed.
 
 Theorem ed_unlearn_c_inv e k t e' : Inv e -> ed_unlearn_c dops sops e k t = Ok e' -> Inv e'.
 Proof.
-  intros [[W Dk] Ist] H. unfold ed_unlearn_c in H. eapply clamp_page_inv; [| | | exact H]; unfold ed_unlearn; cbn [sh st].
-  - constructor; cbn; [assumption | now apply ok_remove].
-  - intros pg act sel Hst. rewrite Hst in Ist. destruct Ist as (Hs & _). exact Hs.
-  - cbn. intros Hz. destruct (st e) as [| |pg act sel|mv]; try exact Logic.I. destruct Ist as (Hs & _). split; [exact Hs|].
-    intros Hp. cbn in Hp. lia.
+  intros [[W Dk Sy] Ist] H. unfold ed_unlearn_c in H. eapply clamp_page_inv; [| | exact H]; unfold ed_unlearn; cbn [sh st].
+  - constructor; cbn; [assumption | now apply ok_remove | assumption].
+  - intros pg act sel Hst. rewrite Hst in Ist. destruct Ist as (Hs & _ & Ha). split; [exact Hs | exact Ha].
 Qed.
 
 Lemma with_phrase_sel_inv e f e' b : Inv e ->
@@ -987,7 +1029,7 @@ Proof.
   bind_ok H r Hr. destruct r as [p'|].
   - inv_ok H. constructor; cbn [sh st]; [assumption|]. destruct Ist as ((Hok & Hcom) & _).
     destruct (Hf _ _ _ _ Hok Hr) as (Hok' & Hc'). cbn [state_inv sel_inv].
-    split; [split; [exact Hok' | congruence] | apply page_ok_zero].
+    split; [split; [exact Hok' | congruence] | apply pg_ok_zero_phrase].
   - inv_ok H. constructor; [assumption | now rewrite Est].
 Qed.
 
@@ -1020,13 +1062,13 @@ Proof.
   - apply fst_ok_ok in H as (b & H). eapply ed_start_selecting_inv; eassumption.
   - apply fst_ok_ok in H as (b & H). eapply ed_commit_inv; eassumption.
   - inv_ok H. now apply ed_clear_inv.
-  - inv_ok H. destruct I as [[W Dk] Ist]. constructor; cbn [sh st ed_ack]; [constructor; cbn; assumption|].
+  - inv_ok H. destruct I as [[W Dk Sy] Ist]. constructor; cbn [sh st ed_ack]; [constructor; cbn; assumption|].
     eapply state_inv_view; [|exact Ist]. repeat split.
   - eapply ed_set_options_c_inv; eassumption.
-  - inv_ok H. destruct I as [[W Dk] Ist]. constructor; cbn [sh st ed_set_engine]; [constructor; cbn; assumption|].
+  - inv_ok H. destruct I as [[W Dk Sy] Ist]. constructor; cbn [sh st ed_set_engine]; [constructor; cbn; assumption|].
     eapply state_inv_view; [|exact Ist]. repeat split.
-  - inv_ok H. destruct I as [[W Dk] Ist]. constructor; cbn [sh st ed_clear_syllable_editor]; [constructor; cbn; assumption|].
-    destruct (st e) as [| |pg act sel|mv]; try exact Logic.I. destruct Ist as (Hs & Hp). split.
+  - inv_ok H. destruct I as [[W Dk Sy] Ist]. constructor; cbn [sh st ed_clear_syllable_editor]; [constructor; cbn; assumption|].
+    destruct (st e) as [| |pg act sel|mv]; try exact Logic.I. destruct Ist as (Hs & Hp & Ha). split; [|split; [|exact Ha]].
     + eapply sel_inv_view; [|exact Hs]. reflexivity.
     + intros Hper c Hc. apply (Hp Hper c). rewrite <- Hc. destruct sel as [p|y|sy]; cbn [candidates set_syl dict syl]; try reflexivity.
       destruct (Nat.ltb (ps_end p) (ps_begin p)); [reflexivity|]. destruct (Nat.ltb (clen (ps_com p)) (ps_end p)); [reflexivity|].
@@ -1049,7 +1091,7 @@ Proof.
     eapply IH; [eapply step_inv; eassumption | exact H].
 Qed.
 
-Lemma init_inv d s0 ab ss t0 : dict_ok d -> Inv (init_editor d s0 ab ss t0).
-Proof. intros Hd. constructor; cbn; [constructor; cbn; [apply wf_ce_empty | assumption] | exact Logic.I]. Qed.
+Lemma init_inv d s0 ab t0 : dict_ok d -> Inv (init_editor d s0 ab ss0 t0).
+Proof. intros Hd. constructor; cbn; [constructor; cbn; [apply wf_ce_empty | assumption | reflexivity] | exact Logic.I]. Qed.
 
 End Inv.
